@@ -9,6 +9,8 @@ package addr
 import (
 	"fmt"
 	"math/rand"
+	"os"
+	"runtime"
 	"sort"
 	"sync"
 	"time"
@@ -78,6 +80,17 @@ func Run(c *vrun.Ctx) error {
 		cfg = "AddrCases_thorough.cfg"
 		workers = 6
 	}
+	if cache := os.Getenv("VERIF_ADDR_CACHE"); cache != "" { // development aid: reuse TLC's output between runs
+		if b, err := os.ReadFile(cache + "." + c.Tier); err == nil {
+			cases, err := parseEmitted(string(b))
+			if err != nil {
+				return err
+			}
+			c.Logf("development aid: %d cases from %s", len(cases), cache)
+			c.AddModel(int64(len(cases)), int64(len(cases)))
+			return replay(c, cases)
+		}
+	}
 	res, err := tlc.Run(tlc.Opts{SpecDir: c.SpecDir("addr"), Module: "AddrCases", Config: cfg, Workers: workers,
 		Timeout: 40 * time.Minute, Scratch: c.Scratch, HeapGB: 8})
 	if err != nil {
@@ -88,6 +101,9 @@ func Run(c *vrun.Ctx) error {
 	}
 	c.Logf("AddrCases.tla: %d distinct states, %d generated, %.1fs", res.Distinct, res.Generated, res.WallS)
 	c.AddModel(res.Distinct, res.Generated)
+	if cache := os.Getenv("VERIF_ADDR_CACHE"); cache != "" {
+		os.WriteFile(cache+"."+c.Tier, []byte(res.Output), 0o644)
+	}
 	cases, err := parseEmitted(res.Output)
 	if err != nil {
 		return err
@@ -181,6 +197,17 @@ func replay(c *vrun.Ctx, cases []rawCase) error {
 		rc := cases[i]
 		b := &builder{t: t, rng: rand.New(rand.NewSource(c.Seed*1000003 + int64(i)*7919 + 17))}
 		var err error
+		defer func() {
+			if r := recover(); r != nil {
+				buf := make([]byte, 1<<14)
+				buf = buf[:runtime.Stack(buf, false)]
+				mu.Lock()
+				if firstErr == nil {
+					firstErr = fmt.Errorf("panic in the binder on a %s case: %v\n%s", rc.kind, r, buf)
+				}
+				mu.Unlock()
+			}
+		}()
 		switch rc.kind {
 		case "root", "group":
 		case "net":
